@@ -693,6 +693,7 @@ struct St {
     fails: BTreeMap<String, (Json, String, u64)>,
     subject_errors: BTreeMap<String, u64>,
     visited: HashMap<Key, usize>,
+    states: u64,
     nodes: u64,
     nodes_nontrivial: u64,
     evals: u64,
@@ -714,6 +715,7 @@ impl St {
             fails: BTreeMap::new(),
             subject_errors: BTreeMap::new(),
             visited: HashMap::new(),
+            states: 0,
             nodes: 0,
             nodes_nontrivial: 0,
             evals: 0,
@@ -1624,6 +1626,53 @@ impl OAct {
     }
 }
 
+/// Reduced owned alphabet (used below level 1 when the history depth is 3):
+/// permute (all), transpose, make_contiguous, clip_dim (all valid + 2 invalid per
+/// axis), append of 0/1/2 entries (contiguous; 1 entry also column-major) on every
+/// axis + 1 incompatible, reshape to every factorisation of rank <= 2.
+fn owned_alphabet_reduced(r: &NArr) -> Vec<OAct> {
+    let rank = r.shape.len();
+    let mut v = vec![OAct::Transpose, OAct::MakeContiguous];
+    for p in vp_core::odometer::permutations(rank) {
+        if p.iter().enumerate().any(|(i, &d)| i != d) {
+            v.push(OAct::Permute(p));
+        }
+    }
+    for ax in 0..rank {
+        let n = r.shape[ax];
+        for a in 0..=n {
+            for b in a..=n {
+                if (a, b) != (0, n) {
+                    v.push(OAct::ClipDim(ax, a, b));
+                }
+            }
+        }
+        v.push(OAct::ClipDim(ax, n, n + 1));
+        for k in 0..=2usize {
+            let mut s = r.shape.clone();
+            s[ax] = k;
+            v.push(OAct::Append(ax, s.clone(), false));
+            if k == 1 {
+                v.push(OAct::Append(ax, s, true));
+            }
+        }
+        if rank >= 2 {
+            let mut s = r.shape.clone();
+            s[ax] = 1;
+            s[(ax + 1) % rank] += 1;
+            v.push(OAct::Append(ax, s, false));
+        }
+    }
+    v.push(OAct::ClipDim(rank, 0, 0));
+    v.push(OAct::Append(rank, r.shape.clone(), false));
+    for t in factorisations(r.data.len(), 2) {
+        if t != r.shape {
+            v.push(OAct::Reshape(t));
+        }
+    }
+    v
+}
+
 fn owned_alphabet(r: &NArr) -> Vec<OAct> {
     let rank = r.shape.len();
     let mut v = vec![OAct::Transpose, OAct::MergeAxes, OAct::MakeContiguous];
@@ -1816,20 +1865,23 @@ fn rten_tensor_contig(shape: &[usize], strides: &[usize]) -> bool {
     true
 }
 
-fn owned_dfs(ost: &mut OSt, r: &NArr, depth_left: usize, view_level: bool, st: &mut St) {
+fn owned_dfs(ost: &mut OSt, r: &NArr, depth_left: usize, view_level: bool, reduced_below: bool, st: &mut St) {
     st.max_depth = st.max_depth.max(ost.hist.len());
     if depth_left == 0 {
         return;
     }
-    for act in owned_alphabet(r) {
+    let alpha = if reduced_below && !ost.hist.is_empty() { owned_alphabet_reduced(r) } else { owned_alphabet(r) };
+    for act in alpha {
         if let Some((t, nr)) = owned_step(ost, r, &act, st) {
+            st.max_depth = st.max_depth.max(ost.hist.len() + 1);
             // leaf checks on the owned tensor's view; `path` for leaf failures is the owned history
             let tv = t.view();
             st.base = (tv.data_ptr() as usize, rten_tensor::Storage::len(&tv.storage()));
+            st.states += st.visited.len() as u64;
             st.visited.clear();
             st.start = owned_case(ost, &act);
             node_check(&tv, &nr, st);
-            if view_level {
+            if view_level && ost.hist.is_empty() {
                 // one level of the reduced view alphabet on top of the owned state
                 let cfg = Cfg { depth: 1, recurse_from_copies: false, ak_level1: AK::Small, ak_deeper: AK::Small };
                 for va in alphabet(&nr, false, cfg.ak_level1) {
@@ -1840,7 +1892,7 @@ fn owned_dfs(ost: &mut OSt, r: &NArr, depth_left: usize, view_level: bool, st: &
             }
             if depth_left > 1 {
                 ost.hist.push(act.clone());
-                owned_dfs(ost, &nr, depth_left - 1, view_level, st);
+                owned_dfs(ost, &nr, depth_left - 1, view_level, reduced_below, st);
                 ost.hist.pop();
             }
         }
@@ -2079,6 +2131,8 @@ struct JobOut {
 fn run_job(job: &Job, p: &Params) -> JobOut {
     let t0 = thread_cpu_s();
     let mut out = run_job_inner(job, p);
+    out.st.states += out.st.visited.len() as u64;
+    out.st.visited = HashMap::new();
     out.cpu_s = thread_cpu_s() - t0;
     out
 }
@@ -2126,7 +2180,7 @@ fn run_job_inner(job: &Job, p: &Params) -> JobOut {
                     _ => unreachable!(),
                 }
             });
-            out.sample = Some(json!({"job": format!("{job:?}").chars().take(160).collect::<String>(), "evaluations": out.st.evals, "distinct_states": out.st.visited.len()}));
+            out.sample = Some(json!({"job": format!("{job:?}").chars().take(160).collect::<String>(), "evaluations": out.st.evals, "distinct_states": out.st.visited.len() as u64 + out.st.states}));
         }
         Job::Owned(spec) => {
             out.st = St::new("owned", spec.to_json());
@@ -2150,7 +2204,7 @@ fn run_job_inner(job: &Job, p: &Params) -> JobOut {
                 }
             });
             if ok {
-                owned_dfs(&mut ost, &start.r, p.owned_depth, p.owned_view_level, &mut out.st);
+                owned_dfs(&mut ost, &start.r, p.owned_depth, p.owned_view_level, p.owned_depth >= 3, &mut out.st);
             }
             out.sample = Some(json!({"job": format!("{job:?}"), "evaluations": out.st.evals}));
             out.ocnt = ost.ocnt;
@@ -2259,7 +2313,18 @@ pub fn run(ctx: Ctx) -> ! {
         replay(ctx);
     }
     let p = params(&ctx);
-    let jobs = make_jobs(&p);
+    let mut jobs = make_jobs(&p);
+    // development aid: VERIF_C09_ONLY=chains|full|owned|big|range restricts the job kinds (never set by ./check)
+    let only = std::env::var("VERIF_C09_ONLY").ok();
+    if let Some(only) = &only {
+        jobs.retain(|j| match j {
+            Job::Chains(_) => only == "chains",
+            Job::Full(..) => only == "full",
+            Job::Owned(_) => only == "owned",
+            Job::Big(_) => only == "big",
+            Job::Range => only == "range",
+        });
+    }
     let outs = vp_core::par::map(jobs.len(), |i| run_job(&jobs[i], &p));
 
     // merge in job order (deterministic first case per signature)
@@ -2306,7 +2371,7 @@ pub fn run(ctx: Ctx) -> ! {
         evals += o.st.evals;
         nodes += o.st.nodes;
         nontrivial += o.st.nodes_nontrivial;
-        states += o.st.visited.len() as u64;
+        states += o.st.states;
         skipped += o.skipped as u64;
         max_depth = max_depth.max(o.st.max_depth);
         let kind = match &jobs[i] {
@@ -2342,12 +2407,12 @@ pub fn run(ctx: Ctx) -> ! {
     }
     // non-vacuity: every action must have succeeded-and-matched often
     for (k, c) in A_NAMES.iter().zip(&vcnt) {
-        if c.both_ok < 200 {
+        if c.both_ok < 200 && only.is_none() {
             ctx.machinery(&format!("C09 vacuous: view action {k} matched the model only {} times", c.both_ok));
         }
     }
     for (k, c) in O_NAMES.iter().zip(&ocnt) {
-        if c.both_ok < 100 {
+        if c.both_ok < 100 && only.is_none() {
             ctx.machinery(&format!("C09 vacuous: owned action {k} matched the model only {} times", c.both_ok));
         }
     }
@@ -2376,7 +2441,7 @@ pub fn run(ctx: Ctx) -> ! {
         "distinct_nontrivial": nontrivial,
         "rule": "every action of the stated alphabets is applied to the real tensor and to the NArr model; subject Ok => model Ok and equal shape, equal get(index) for every index, equal iter(); every distinct node additionally runs to_vec/to_slice/iter.rev/data/copy_into_slice/copy_from/get(out of range). non-trivial = checked nodes with >= 2 elements",
         "samples": samples.take(),
-        "exhaustive": true,
+        "exhaustive": only.is_none(),
         "jobs": jobs.len(),
         "jobs_per_box(jobs,evaluations,cpu_s)": per_box.iter().map(|(k, v)| (k.to_string(), json!([v.0, v.1, (v.2 * 10.0).round() / 10.0]))).collect::<BTreeMap<String, Json>>(),
         "cpu_s_total": (per_box.values().map(|v| v.2).sum::<f64>() * 10.0).round() / 10.0,
